@@ -2222,6 +2222,12 @@ class DiskObjectStore(PackBasedObjectStore):
                 # The objects are already packed; drop the temporary pack we
                 # were about to move in rather than leaking it into pack_dir.
                 _remove_readonly(path)
+                # These objects were written again just now, so the copy that
+                # is kept is as recent as the one dropped (Git freshens the
+                # existing pack as well): the grace period of gc must cover
+                # them.
+                with suppress(OSError):
+                    os.utime(pack._data_path, None)
                 return pack
 
         target_pack_path = pack_base_name + ".pack"
